@@ -1103,6 +1103,11 @@ def check(model, rep, tier):
     registry_clause(model, rep, funcs)
     sharing_clause(model, rep, funcs)
     borrowed_fields_clause(model, rep, funcs)
+    # derived loaders contain exactly the selected molecules - also when the selection is empty
+    from .generic import truthiness_default_obligations, functions_in
+    nt = truthiness_default_obligations(model, rep, functions_in(model, ["acryo/loader/_loader.py", "acryo/loader/_batch.py", "acryo/loader/_base.py",
+                                                                         "acryo/loader/_group.py", "acryo/loader/_mock.py"]), "5 purity")
+    rep.stats["optional_parameters_tested_by_truthiness"] = nt
     from .common import dask_key_obligations, frame_orientation_obligations
     for a_ in (LB + "apply", LG + "apply"):
         if funcs.get(a_) is not None:
